@@ -391,6 +391,24 @@ func ruleCIDTaint(c *Ctx) {
 				}
 				gd := p.guardedBy(call, lookupGuard)
 				c.check(gd != nil, fnName(g), "token reset re-authenticates only connections whose own token id is listed", p.InstrPos(call), "dominated by tids[c.tid]", "auth request sent for connections that are not addressed by the token reset")
+				// a connection without a token id is addressed by no reset: an empty id in the event's list
+				// (null or "" entry) must not select every anonymous or id-less connection
+				c.inst(1)
+				nonEmpty := func(i *ssa.If) (bool, bool) {
+					b, ok := i.Cond.(*ssa.BinOp)
+					if !ok || (b.Op != token.EQL && b.Op != token.NEQ) {
+						return false, false
+					}
+					for _, pr := range [][2]ssa.Value{{b.X, b.Y}, {b.Y, b.X}} {
+						if s, isS := constString(pr[1]); isS && s == "" {
+							if f, _ := fieldLoad(pr[0]); f == fTid {
+								return b.Op == token.NEQ, true
+							}
+						}
+					}
+					return false, false
+				}
+				c.check(p.guardedBy(call, nonEmpty) != nil, fnName(g), "a connection without a token id is addressed by no token reset", p.InstrPos(call), "dominated by c.tid != \"\"", "a token reset listing an empty id re-authenticates every connection that has no token id — with that connection's own id and token sent to the reset's subject")
 			}
 		}
 	}
